@@ -31,6 +31,7 @@ RULE = (
     "for histories: >= 3 operations that returned new values. Distinct = case hash."
 )
 ASSUMPTIONS = ["the harness never calls repr()/format on dates (month-name formatting of months 13+ raises on this code base)"]
+CASE_SCALE = {"calorder": 10}  # one case = all ordered pairs among ~70 dates of a year
 
 DAY = Z.DAY
 SEC = Z.SEC
